@@ -56,6 +56,20 @@ fn gen_text(t: &mut Tape) -> String {
     (*t.pick(&TEXTS)).to_string()
 }
 
+/// 1..3 comma-free author names in any order; blanks at either end are part of a name
+const AUTHORS: [&str; 9] = ["Alice A.", "Bob", " Alice", "Bob ", "  two blanks", "D. E.", "x=1;y=2", "日本語", ""];
+fn gen_authors(t: &mut Tape, ctx: &mut Ctx) -> Vec<String> {
+    let n = 1 + t.choice(3);
+    let v: Vec<String> = (0..n).map(|_| (*t.pick(&AUTHORS)).to_string()).collect();
+    if v[0].starts_with(' ') {
+        ctx.label("first-author-starts-with-blank");
+    }
+    if v.iter().skip(1).any(|a| a.starts_with(' ') || a.ends_with(' ')) {
+        ctx.label("author-with-outer-blank");
+    }
+    v
+}
+
 fn gen_time(t: &mut Tape) -> chrono::DateTime<Local> {
     let secs = 1_600_000_000i64 + t.u32() as i64 % 100_000_000;
     let nanos = if t.coin() { t.u32() % 1_000_000_000 } else { 0 };
@@ -78,8 +92,7 @@ fn gen_instance_ann(t: &mut Tape, ctx: &mut Ctx) -> Result<InstanceAnnotations, 
         }
     }
     if t.coin() {
-        let authors = vec!["Alice A.".to_string(), gen_text(t).replace(',', ""), "Bob".to_string()];
-        let authors: Vec<String> = authors.into_iter().take(1 + t.choice(3)).collect();
+        let authors = gen_authors(t, ctx);
         a.set_authors(authors.clone());
         let back: Vec<String> = a.authors().map_err(|e| e.to_string())?.map(|s| s.to_string()).collect();
         if back != authors {
@@ -133,7 +146,7 @@ fn gen_parametric_ann(t: &mut Tape, ctx: &mut Ctx) -> Result<ParametricInstanceA
         }
     }
     if t.coin() {
-        let authors = vec!["Carol".to_string(), "D. E.".to_string()];
+        let authors = gen_authors(t, ctx);
         a.set_authors(authors.clone());
         let back: Vec<String> = a.authors().map_err(|e| e.to_string())?.map(|s| s.to_string()).collect();
         if back != authors {
@@ -400,7 +413,7 @@ impl Property for C20 {
          oracle = in-memory model: ordered list of (media type, message, annotations); non-trivial = >=3 layers of >=2 kinds with a non-empty annotation map; distinct = sha256(history)"
     }
     fn required_labels(&self) -> Vec<String> {
-        ["kind=instance", "kind=parametric-instance", "kind=solution", "kind=sample-set", "empty-message", "same-message-twice", "wrong-kind-request", "non-ommx-image", "zero-layers", "created-time", "user-defined-key", "identical-blob-different-kind", "reopened"].iter().map(|s| s.to_string()).collect()
+        ["kind=instance", "kind=parametric-instance", "kind=solution", "kind=sample-set", "empty-message", "same-message-twice", "wrong-kind-request", "non-ommx-image", "zero-layers", "created-time", "user-defined-key", "identical-blob-different-kind", "reopened", "first-author-starts-with-blank", "author-with-outer-blank", "sample-set-in-1.6-layout"].iter().map(|s| s.to_string()).collect()
     }
     fn cases(&self, tier: Tier) -> usize {
         match tier {
@@ -508,7 +521,19 @@ impl Property for C20 {
                         samples.add_sample(i as u64, gen_inst_state(t, &gi, regime, true));
                     }
                     match gi.inst.evaluate_samples(&samples) {
-                        Ok((ss, _)) => Layer::SampleSet(ss, ann),
+                        Ok((mut ss, _)) => {
+                            if t.p(80) {
+                                // the layout written by the 1.6 release: `feasible` = relaxed feasibility,
+                                // `feasible_unrelaxed` = feasibility for all constraints; stored as it is, returned as it is
+                                #[allow(deprecated)]
+                                {
+                                    ss.feasible_unrelaxed = std::mem::take(&mut ss.feasible);
+                                    ss.feasible = std::mem::take(&mut ss.feasible_relaxed);
+                                }
+                                ctx.label("sample-set-in-1.6-layout");
+                            }
+                            Layer::SampleSet(ss, ann)
+                        }
                         Err(_) => Layer::SampleSet(v1::SampleSet::default(), ann),
                     }
                 }
